@@ -269,11 +269,11 @@ func c19Pairs(r *vk.Rand) []pair {
 
 func c19Cases(env vk.Env) []vk.Case {
 	var cs []vk.Case
-	for i := 0; i < env.Pick(40, 1500); i++ {
+	for i := 0; i < env.Pick(40, 6000); i++ {
 		i := i
 		cs = append(cs, vk.Case{ID: fmt.Sprintf("pairs/%d", i), Run: func(t *vk.T) { c19RunPairs(t, i) }})
 	}
-	for i := 0; i < env.Pick(20, 400); i++ {
+	for i := 0; i < env.Pick(20, 1600); i++ {
 		i := i
 		cs = append(cs, vk.Case{ID: fmt.Sprintf("commit/%d", i), Run: func(t *vk.T) { c19Commit(t, i) }})
 	}
